@@ -183,14 +183,56 @@ func init() {
 		if r.Tier == "thorough" {
 			rounds = 3000
 		}
-		cmd := exec.Command(bin, "racepass", prop+"/", fmt.Sprint(rounds), fmt.Sprint(r.Seed))
-		cmd.Env = append(os.Environ(), "GORACE=halt_on_error=0 exitcode=0 history_size=2")
+		// one child per harness: a child that the Go runtime kills ("fatal error: concurrent map read
+		// and map write" - an unsynchronised map access caught by the runtime itself, not
+		// recoverable) ends the rounds of its own harness only
+		var out strings.Builder
+		var errs []string
+		fatal := map[string]string{}
+		for _, hn := range harnessNames(prop + "/") {
+			cmd := exec.Command(bin, "racepass", hn, fmt.Sprint(rounds), fmt.Sprint(r.Seed))
+			cmd.Env = append(os.Environ(), "GORACE=halt_on_error=0 exitcode=0 history_size=2")
+			var buf bytes.Buffer
+			cmd.Stderr = &buf
+			cmd.Stdout = &buf
+			if err := cmd.Run(); err != nil {
+				errs = append(errs, hn+": "+err.Error())
+			}
+			o := buf.String()
+			out.WriteString(o)
+			if i := strings.Index(o, "\nfatal error: "); i >= 0 {
+				msg := o[i+len("\nfatal error: "):]
+				if j := strings.Index(msg, "\n"); j >= 0 {
+					tail := msg[j:]
+					msg = msg[:j]
+					// the library entry point of the goroutine the runtime stopped in
+					api := ""
+					for _, l := range strings.Split(tail, "\n") {
+						if strings.HasPrefix(l, "github.com/xujiajun/nutsdb.") {
+							api = strings.TrimPrefix(l[:strings.Index(l+"(", "(0x")], "github.com/xujiajun/nutsdb.")
+							if strings.HasPrefix(api, "(*DB).") && api != "(*DB).managed" {
+								break
+							}
+						}
+						if strings.HasPrefix(l, "goroutine ") && api != "" {
+							break
+						}
+					}
+					fatal["race:runtime-fatal("+strings.Replace(msg, " ", "-", -1)+")@"+api] = clip(o[i:], 1500)
+				}
+			}
+		}
 		var buf bytes.Buffer
-		cmd.Stderr = &buf
-		cmd.Stdout = &buf
-		err := cmd.Run()
+		buf.WriteString(out.String())
+		var err error
+		if len(errs) > 0 {
+			err = fmt.Errorf("%s", strings.Join(errs, "; "))
+		}
 		races := parseRaces(buf.String())
-		info := map[string]interface{}{"rounds": rounds, "goroutines": 16, "distinct_race_reports": len(races), "sampling": true}
+		for a, d := range fatal {
+			races[a] = d
+		}
+		info := map[string]interface{}{"rounds": rounds, "goroutines": 16, "distinct_race_reports": len(races), "sampling": true, "runtime_fatal_errors": len(fatal)}
 		if m := regexp.MustCompile(`VERIF-BLOCKED harness=(\S+) round=(\d+)`).FindStringSubmatch(buf.String()); m != nil {
 			out := buf.String()
 			dump := out[strings.Index(out, "VERIF-BLOCKED"):]
@@ -220,4 +262,11 @@ func init() {
 				Detail: strings.Split(races[a], "\n"), Extra: map[string]interface{}{"profile": "race"}})
 		}
 	}
+}
+
+func clip(s string, n int) string {
+	if len(s) > n {
+		return s[:n]
+	}
+	return s
 }
